@@ -144,7 +144,79 @@ pub fn oracle(op: &str, outs: &[String]) -> String {
             _ => {}
         }
     }
+    if let Some(f) = linkadr_rate_in_transmissions(region, &evs[1..], outs) {
+        return f;
+    }
     "ok".into()
+}
+
+/// "effects judged from subsequent transmissions": when an accepted Class A downlink carries only
+/// LinkADRReq commands naming a data rate (not 15 = keep) and the next uplink answers every one of
+/// them with full acceptance, that uplink and the ones that follow it — until the application or
+/// the network changes the rate again, for at most eight uplinks so that no ADR back-off is due —
+/// are transmitted at the commanded data rate, in every region (an accepted LinkADRReq also ends a
+/// join-bias phase of the fixed plans, in which data frames use DR0).
+fn linkadr_rate_in_transmissions(region: &str, evs: &[&str], outs: &[String]) -> Option<String> {
+    use crate::oracle::*;
+    let table = crate::macsuites::dr_table(region);
+    let mut i = 0;
+    while i < evs.len() {
+        let w: Vec<&str> = evs[i].split_whitespace().collect();
+        i += 1;
+        if w.len() < 11 || !(w[0] == "rx1" || w[0] == "rx2") || w[3] != "d" || !outs[i - 1].contains("DownlinkReceived") {
+            continue;
+        }
+        let fopts = if w[8] == "-" { vec![] } else { unhex(w[8]) };
+        let payload = if w[10] == "-" { vec![] } else { unhex(w[10]) };
+        let cmds_bytes = if w[9] == "0" { payload } else { fopts };
+        let (cmds, whole) = split_cmds(&cmds_bytes, down_len);
+        if !whole || cmds.is_empty() || cmds.iter().any(|(c, _)| *c != 0x03) {
+            continue;
+        }
+        let dr = cmds[cmds.len() - 1].1[0] >> 4;
+        if dr == 15 {
+            continue;
+        }
+        let want = match table.get(dr as usize).cloned().flatten() {
+            Some(x) => x,
+            None => continue,
+        };
+        let mut first = true;
+        let mut n = 0;
+        for j in i..evs.len() {
+            let w0 = evs[j].split_whitespace().next().unwrap_or("");
+            match w0 {
+                "snap" | "timeout" | "persist" | "delays" => continue,
+                "send" => {
+                    let tx = match parse_tx(&outs[j]) {
+                        Some(t) => t,
+                        None => break,
+                    };
+                    if first {
+                        first = false;
+                        let up = match &tx.up {
+                            Some(u) => u,
+                            None => break,
+                        };
+                        let (ans, ok) = split_cmds(&up.fopts, up_len);
+                        let adr: Vec<u8> = ans.iter().filter(|(c, _)| *c == 0x03).map(|(_, p)| p[0]).collect();
+                        if !ok || adr.len() != cmds.len() || adr.iter().any(|a| *a != 7) {
+                            break;
+                        }
+                    }
+                    if (tx.rf.sf, tx.rf.bw) != want {
+                        return Some(format!("FAIL:linkadr-dr{}-fully-accepted-but-uplink-sent-at-sf{}-bw{}", dr, tx.rf.sf, tx.rf.bw));
+                    }
+                    n += 1;
+                    if n >= 8 {
+                        break;
+                    }
+                }
+                _ => break,
+            }
+        }
+    }
+    None
 }
 
 fn expected_mask(region: &str, before: &[u8], cntl: u8, m0: u8, m1: u8) -> Option<Vec<u8>> {
@@ -454,6 +526,34 @@ pub fn run(tier: &str, seed: u64, dir: &str) {
                         sink.case(&op, &eval(&op), "linkadr-single", true);
                     }
                 }
+            }
+        }
+        // 1b. a LinkADRReq accepted while the join-bias phase of a fixed plan is still running (the
+        // device joined on its preferred sub-band, JoinAccept without CFList, several biased tries
+        // configured): the commanded rate must show in the transmissions that follow
+        if is_fixed(region) {
+            for k in 0..(if thorough { 24 } else { 6 }) {
+                let sb = 1 + (k % 8) as u8;
+                let tries = [3usize, 8, 4, 1, 2, 5][k % 6];
+                let mut h = Hist::new("C08", region, 20, 0, rng.next() & 0xffffff, &[], Some((sb, tries)));
+                h.go_live();
+                h.ev("otaa");
+                let devaddr = 0x0100_0000 + (rng.next() as u32 & 0xffffff);
+                let root = h.root;
+                let acc = build_join_accept(&root, devaddr, 0, 1, &CfDesc::None);
+                h.rx_bytes("rx1", 5, &acc, None);
+                h.devaddr = devaddr;
+                h.last_down = None;
+                h.snap();
+                h.send(1, false, &[1]);
+                let dr = [3u8, 2, 1, 3][k % 4];
+                // ChMaskCntl 6: all 125 kHz channels on (the preferred sub-band stays enabled)
+                h.rx_auth("rx1", 0, 1, false, &link_adr_req(dr, 15, 0x00ff, 6, 1), None, &[]).snap();
+                for _ in 0..6 {
+                    h.send(1, false, &[2]).timeout().snap();
+                }
+                let op = h.done();
+                sink.case(&op, &eval(&op), "linkadr-during-join-bias", true);
             }
         }
         // 2. LinkADRReq blocks of 2..3 commands
